@@ -180,6 +180,19 @@ func elemV(v V, i int) V {
 	return V{}
 }
 
+// padString extends s to n bytes with a filler chosen by k: ASCII, multi-byte UTF-8 sequences (2, 3 and 4
+// bytes, possibly cut in the middle), invalid UTF-8 and NUL bytes - a string's size is its BYTES.
+func padString(s string, n, k int) string {
+	fill := []string{"x", "\u00e9", "\u4e2d\u6587", "\U0001F600", "\x00", "\xff\x80", "a\u00e9\x00\U0001F601"}[k%7]
+	for len(s) < n {
+		s += fill
+	}
+	if len(s) > n && n >= 4 {
+		s = s[:n]
+	}
+	return s
+}
+
 // build makes the value and computes its expected structural size.
 func build(t T, v V) (reflect.Value, int) {
 	rt := goType(t)
@@ -191,9 +204,7 @@ func build(t T, v V) (reflect.Value, int) {
 		if n < len(s) && v.I == 0 {
 			s = s[:n]
 		}
-		for len(s) < n {
-			s += "x"
-		}
+		s = padString(s, n, v.I)
 		out.SetString(s)
 		return out, 16 + len(s)
 	case "array":
@@ -362,7 +373,7 @@ func buildKey(t T, v V, i int) (reflect.Value, int) {
 	case "struct": // struct{F0 int32; F1 string}
 		out := reflect.New(goType(t)).Elem()
 		out.Field(0).SetInt(int64(i))
-		s := strings.Repeat("q", v.Len%5)
+		s := padString("", v.Len%5+4*(i%2), i)[:v.Len%5]
 		out.Field(1).SetString(s)
 		return out, 4 + 16 + len(s)
 	case "string":
